@@ -136,6 +136,17 @@ func checkValidators1(run *core.Run, s string) {
 	if r.rel != refRelation(s) && !hasOtherSpace(s) {
 		bad("relation-differs-from-rule", fmt.Sprint(refRelation(s)))
 	}
+	// the validators of the single fields implement the shared rule strings (which are compared with the JS and
+	// Java sources): evaluated here directly from the constants of the running package
+	for _, rc := range []struct {
+		name string
+		re   *regexp.Regexp
+		got  bool
+	}{{"id", ruleRe(string(v.RuleID)), r.id}, {"condition", ruleRe(string(v.RuleCondition)), r.cond}, {"type", ruleRe(string(v.RuleType)), r.ty}, {"relation", ruleRe(string(v.RuleRelation)), r.rel}} {
+		if rc.re != nil && utf8.ValidString(s) && rc.re.MatchString(s) != rc.got {
+			bad("validator-differs-from-its-rule-string:"+rc.name, fmt.Sprintf("%v (rule %s)", !rc.got, rc.re))
+		}
+	}
 	// completeness: strings that decompose into accepted parts within the limits are accepted
 	if strings.Count(s, ":") == 1 && !strings.Contains(s, "#") {
 		t, i, _ := strings.Cut(s, ":")
@@ -157,6 +168,20 @@ func checkValidators1(run *core.Run, s string) {
 		run.NonTrivial(s)
 		run.Count("strings_accepted_by_some_validator", 1)
 	}
+}
+
+var ruleReCache sync.Map
+
+func ruleRe(rule string) *regexp.Regexp {
+	if x, ok := ruleReCache.Load(rule); ok {
+		return x.(*regexp.Regexp)
+	}
+	re, err := regexp.Compile("^(?:" + rule + ")$")
+	if err != nil {
+		re = nil
+	}
+	ruleReCache.Store(rule, re)
+	return re
 }
 
 // hasOtherSpace: characters outside the five of RE2's \s that Go's class still... (none: RE2 \s is exactly
@@ -323,6 +348,23 @@ func runC18(run *core.Run) {
 		}
 		core.Parallel(len(cs), func(i int) { checkValidators(run, cs[i]) })
 		run.Count("composed_shape_strings", int64(len(cs)))
+	}
+	// every code point below U+0180 (and a few beyond) in every slot: first and later position of a type, an id and
+	// a relation - a hand-written character test that is off by a range end shows only on the characters in between
+	{
+		var cps []rune
+		for c := rune(0); c < 0x180; c++ {
+			cps = append(cps, c)
+		}
+		cps = append(cps, 0x2028, 0x3000, 0xFEFF, 0xFF21, 0x1F600, 0x10FFFF)
+		var cs []string
+		for _, c := range cps {
+			x := string(c)
+			cs = append(cs, x, "a"+x, x+"a", "t:"+x, "t:a"+x, "t:"+x+"a", "t:a"+x+"a", x+":i", "a"+x+":i", x+":*", "a"+x+":*",
+				"t:i#"+x, "t:i#a"+x, "t:"+x+"#r", "t:a"+x+"#r", x+":i#r", "a"+x+":i#r")
+		}
+		core.Parallel(len(cs), func(i int) { checkValidators(run, cs[i]) })
+		run.Count("single_code_point_slot_strings", int64(len(cs)))
 	}
 	// boundaries
 	var bs []string
